@@ -368,6 +368,45 @@ def interned_construction(rep: Report, prog: Program, resolver: Resolver, summ: 
                       "silently keeps name None", fi.where(node))
 
 
+def no_asserts_in_definitions(rep: Report, prog: Program, resolver: Resolver) -> None:
+    """R19.11: `python -O` deletes assert statements.  In the functions that validate and register names, an assert
+    that carries the uniqueness test lets duplicates through, and one that carries the registration itself
+    (`assert reg.setdefault(name, obj) is obj`) registers nothing."""
+    reach = Reach(resolver, [q for q in ENTRIES if q in prog.functions])
+    n = 0
+    for f in sorted(reach.reached):
+        fi = prog.functions[f]
+        if fi.module != "" or fi.cls not in ("Dimension", "Prefix", "Unit"):
+            continue
+        touches = any(w.location.split(".")[-1] in NAMING_ATTRS or w.location.startswith("attr:") for w in writes_in(prog, resolver, f)) \
+            or any(loc.split(".")[-1] in NAMING_ATTRS for loc, _ in reads_in(prog, resolver, f))
+        if not touches:
+            continue
+        n += 1
+        asserts = [a for a in Resolver._own_nodes(fi.node) if isinstance(a, ast.Assert)]
+        rep.check("R19.11", f, not asserts,
+                  f"{f} validates or registers names and contains `{ast.unparse(asserts[0])[:60] if asserts else ''}`: under python -O the statement - the "
+                  "uniqueness test, or the registration it performs - does not exist", fi.where(asserts[0] if asserts else None))
+    if n < 5:
+        raise AnalysisError(f"only {n} naming functions found under the definition entry points")
+
+
+def registries_are_dicts(rep: Report, prog: Program) -> None:
+    """R19.12: every rule here reads `k in reg`, `reg[k]`, `reg.get(k)` and `reg[k] = v` as the operations of a builtin dict on
+    the key as given.  A registry that is some other mapping (case-folding, weak, ordered-with-eviction) answers
+    those differently from each other."""
+    for cls in ("Dimension", "Prefix", "Unit"):
+        ci = prog.cls(cls)
+        for reg in ("_by_name", "_by_symbol"):
+            v = ci.class_attrs.get(reg)
+            if v is None:
+                continue
+            val = getattr(v, "value", v)
+            ok = (isinstance(val, ast.Dict) and not val.keys) or (isinstance(val, ast.Call) and ast.unparse(val.func) == "dict" and not val.args and not val.keywords)
+            rep.check("R19.12", f"{cls}.{reg}", bool(ok), f"{cls}.{reg} is initialised as `{ast.unparse(val)[:40] if val is not None else None}`, not a plain dict: "
+                      "lookups through `in`, `[]` and `.get` need no longer agree with each other or with what was declared", f"{ci.path}:{getattr(v, 'lineno', ci.node.lineno)}")
+
+
 def lookup_by_name(rep: Report, prog: Program) -> None:
     """R19.10: `named(name)` answers from the name registry with the given name and from nothing else.  Names and
     symbols are separate namespaces: routing the lookup through symbol resolution returns another unit whenever a
@@ -436,6 +475,8 @@ def run(rep: Report) -> None:
     rep.rule("R19.4", "anonymous before named: no shipped declaration names a key that was already constructed anonymously "
              "(under every entry module), unless the constructor handles late naming", floor=25)
     rep.rule("R19.5", "uniqueness in shipped tables: no name or symbol is declared for two objects", floor=300)
+    rep.rule("R19.11", "no assert statement in the functions that validate or register names (python -O deletes it)", floor=5)
+    rep.rule("R19.12", "the name and symbol registries are plain dicts", floor=5)
     rep.rule("R19.10", "named(name) is the name registry's entry for that name", floor=2)
     rep.rule("R19.9", "no shipped dimension is declared under two names (a second Dimension.derive of an equal dimension renames the first)", floor=1)
     rep.rule("R19.6", "no memoised function reads the name/symbol registries without being invalidated by their writers", floor=1)
@@ -512,6 +553,8 @@ def run(rep: Report) -> None:
     if not ev.dim_renames:
         rep.ok("R19.9", "shipped-dimensions", note=f"{len(ev.dim_by_name)} named dimensions, none declared under two names")
     lookup_by_name(rep, prog)
+    no_asserts_in_definitions(rep, prog, resolver)
+    registries_are_dicts(rep, prog)
     # R19.6 memo over registries (shared with C08)
     memo_over_registries(rep, prog, resolver, "R19.6")
     rep.analysed.update({"entry_points": ENTRIES, "declared_prefixes": len(ev.prefix_decls), "unit_name_symbol_declarations": len(ev.name_decls),
